@@ -101,6 +101,8 @@ def gen_case(rng, tier, directed=None):
         "extra": rng.choice([[], [], [], ["tag"], ["vec", "tag"]]), "ncell": rng.choice([1, 2, 3, U.GRID]),
         "tmin_q": rng.choice([1, 2, 2, 3]), "lr": rng.choice([0.5, 1.0]),
     }
+    if rng.random() < 0.3:
+        case["relay"] = rng.choice([1, 2, 3, 5])
     if directed == "starve":
         case["reselect"] = rng.choice(["all", "all", "terminated"])
         if case["reselect"] == "terminated" and rng.random() < 0.7:
@@ -250,8 +252,13 @@ def run_impl(case):
     cur_ids, owner, next_id = [], {}, 1
     with warnings.catch_warnings():
         warnings.simplefilter("ignore")
-        for op in case["ops"]:
+        for step, op in enumerate(case["ops"]):
             name = op[0]
+            if case.get("relay") and step and step % case["relay"] == 0:
+                # checkpoint / resume: a deep copy of the whole scheduler (pool, archives) continues exactly like the original
+                import copy
+                sch = copy.deepcopy(sch)
+                arch, res, ems = sch.archive, (sch.result_archive if res is not None else None), list(sch.emitter_pool)
             st = {"op": name, "active_before": [bool(x) for x in sch.active], "sel_before": list(sel), "suc_before": list(suc)}
             nfb = len(arch.feedback)
             if name == "ask":
